@@ -22,11 +22,8 @@ def gen_name32(rng) -> str:
         if len((s + ch).encode()) > target:
             break
         s += ch
-    if not s or s.endswith("\x00"):
-        s = "ab"[: max(1, min(2, target))]
-    s = s.rstrip()
     if not s:
-        s = "a"
+        s = "ab"[: max(1, min(2, target))]
     return s
 
 
@@ -233,9 +230,10 @@ def c17_sequences(maxlen: int) -> List[tuple]:
             return
         for a in alpha:
             if a == "start":
-                if running:
+                # start on a running bridge is allowed once per sequence (it fails on the bridge's own ports)
+                if running and "start!" in seq:
                     continue
-                rec(seq + [a], not occ, occ)        # start fails iff a port is occupied
+                rec(seq + [a + "!" if running else a], (not occ) and not running, occ)
             elif a == "stop":
                 rec(seq + [a], False, occ)
             elif a == "send":
@@ -282,7 +280,7 @@ def gen_c17(rng, index: Optional[int] = None, maxlen: int = 4) -> Dict[str, Any]
         cfg["ports"] = [20002, 20003]
         ports = cfg["ports"]
         for a in c17_cases(maxlen)[index % len(c17_cases(maxlen))]:
-            if a == "start":
+            if a in ("start", "start!"):
                 steps.append({"kind": rng.choice(["start", "start", "aenter"])})
             elif a == "stop":
                 if rng.random() < 0.4:
@@ -303,9 +301,9 @@ def gen_c17(rng, index: Optional[int] = None, maxlen: int = 4) -> Dict[str, Any]
     occ: set = set()
     for _ in range(rng.randrange(1, 14)):
         r = rng.random()
-        if r < 0.25 and not running:
+        if r < 0.25 and (not running or rng.random() < 0.15):
             steps.append({"kind": rng.choice(["start", "aenter"])})
-            running = not (occ & set(ports))
+            running = not (occ & set(ports)) and not running
         elif r < 0.5:
             if rng.random() < 0.5:
                 send(ports, late=True)
